@@ -5,6 +5,8 @@ use tokio::io::{self, AsyncRead, AsyncReadExt};
 
 use self::reference_sequence::read_reference_sequence;
 
+const MAX_PREALLOCATED_REFERENCE_SEQUENCE_COUNT: usize = 1 << 12;
+
 pub(super) async fn read_reference_sequences<R>(reader: &mut R) -> io::Result<ReferenceSequences>
 where
     R: AsyncRead + Unpin,
@@ -13,7 +15,10 @@ where
         usize::try_from(n).map_err(|e| io::Error::new(io::ErrorKind::InvalidData, e))
     })?;
 
-    let mut reference_sequences = ReferenceSequences::with_capacity(n_ref);
+    // The reference sequence count is not yet validated, i.e., the dictionary grows as entries are
+    // read when the count is large.
+    let mut reference_sequences =
+        ReferenceSequences::with_capacity(n_ref.min(MAX_PREALLOCATED_REFERENCE_SEQUENCE_COUNT));
 
     for _ in 0..n_ref {
         let (name, reference_sequence) = read_reference_sequence(reader).await?;
